@@ -100,3 +100,14 @@ Proof. intros H. eexists. split; [now apply ol_marker_roundtrip|reflexivity]. Qe
 
 Example marker_9_10 : read_ol_marker (zstr 9 ++ [46; 32; 120]) = Some (9, 3%nat) /\ read_ol_marker (zstr 10 ++ [46; 32; 120]) = Some (10, 4%nat).
 Proof. split; vm_compute; reflexivity. Qed.
+
+(* the number the renderer writes for the i-th item of a list starting at [start] (capped at nine digits,
+   fix 5811206) is always in the range of the theorem: no hypothesis on the size of the list or its start *)
+Corollary rendered_item_marker_read_back (i start : Z) rest : (0 <= i + start)%Z ->
+  let num := Z.min (i + start) 999999999 in
+  read_ol_marker (zstr num ++ [46; 32] ++ rest) = Some (Z.to_N num, (length (zstr num) + 2)%nat).
+Proof. intros H num. apply ol_marker_roundtrip. unfold num. lia. Qed.
+
+(* without the cap the statement fails: the tenth digit (the defect repaired by 5811206) *)
+Example ten_digits_are_no_marker : read_ol_marker (zstr 1000000000 ++ [46; 32; 120]) = None.
+Proof. vm_compute. reflexivity. Qed.
